@@ -31,6 +31,7 @@ type plan struct {
 	async   bool // the handler returns without answering; the answer comes from another goroutine on release
 	answers int  // calls of Respond (default 1)
 	honour  bool // FlushOp calls req.Flush() on this request
+	overlap string // answer a second time while the first answer is parked at this point of Respond
 }
 
 type lreq struct {
@@ -384,8 +385,23 @@ func (o *lifeOps) do(r *g.SrvReq) {
 		n = 1
 	}
 	work := func() {
-		for i := 0; i < n; i++ {
-			o.respond(s, q)
+		if q.plan.overlap != "" {
+			p := s.parkRule(q.plan.overlap, q.rid, 0)
+			first := make(chan bool)
+			go func() { o.respond(s, q); close(first) }()
+			if waitc(p.reached, 2*time.Second) {
+				o.respond(s, q) // the extra answer arrives while the first is still inside Respond
+			}
+			select {
+			case <-p.release:
+			default:
+				close(p.release)
+			}
+			<-first
+		} else {
+			for i := 0; i < n; i++ {
+				o.respond(s, q)
+			}
 		}
 		atomic.StoreInt64(&q.exited, s.tick())
 	}
